@@ -229,6 +229,18 @@ Definition stable_ok (f : file) (fo : fobjs) (T : stable) : Prop :=
 Definition tables_of (f : file) (fo : fobjs) (kts : list ktable) : tables :=
   map (fun kt => (kt_index kt, map (lentry_of f fo (kt_index kt)) (kt_entries kt))) kts.
 
+(* the parsed form of a stored table *)
+Definition kt_of (T : stable) : ktable :=
+  {| kt_index := st_idx T; kt_seq := st_seq T; kt_entries := place 10 (st_entries T) |}.
+
+(* Model.active_tables as a function of the registry: active_tables f st = active_of f (s_fobjs st) (s_kts st) *)
+Definition active_of (f : file) (fo : fobjs) (reg : list (Z * list ktable)) : tables :=
+  flat_map (fun il : Z * list ktable =>
+              match snd il with
+              | [] => []
+              | t :: _ => [(fst il, map (lentry_of f fo (fst il)) (kt_entries t))]
+              end) reg.
+
 (* ---------- trees as dictionaries: equal up to the order of siblings ---------- *)
 Inductive tree_equiv : tree -> tree -> Prop :=
 | te_leaf v : tree_equiv (Leaf v) (Leaf v)
